@@ -95,7 +95,6 @@ func init() {
 		"runtime.Goexit":                  ext۰runtime۰Goexit,
 		"runtime.Gosched":                 ext۰runtime۰Gosched,
 		"runtime.NumCPU":                  ext۰runtime۰NumCPU,
-		"time.Sleep":                      ext۰time۰Sleep,
 	})
 }
 
